@@ -237,7 +237,9 @@ class ThrRunner:
             cur = self.cur
             seen = (args, dict(kwargs))
             if cur is not None:
-                cur["invoked"].append((key, inst_of(job.datetime), cell["payload_id"](seen)))
+                # a job whose OWN `job.kwargs` mapping was modified (handed out by reference, as documented) is not judged
+                pid_ = cell["payload"] if cell.get("own_kwargs_touched") else cell["payload_id"](seen)
+                cur["invoked"].append((key, inst_of(job.datetime), pid_))
                 for c in (cur["scripts"].get(str(key)) or cur["scripts"].get(key) or []):
                     self.run_cop(c)
                 if key in cur["raises"]:
@@ -540,6 +542,13 @@ class ThrRunner:
                     if what in ("tags", "all") and isinstance(cell.get("orig_tags"), set):
                         cell["orig_tags"].clear()
                         cell["orig_tags"].add("t9")
+                    if what == "job_kwargs":
+                        # the mapping `job.kwargs` hands out belongs to THIS job: writing to it must not reach any other job
+                        try:
+                            cell["job"].kwargs["leaked"] = 1
+                            cell["own_kwargs_touched"] = True
+                        except Exception:  # noqa: BLE001 - a read-only view is fine too
+                            pass
                     if what in ("returned_tags", "all"):
                         t = cell["job"].tags
                         if o.get("how") == "swap" and t:
